@@ -72,10 +72,31 @@ def run_program(fx, np, seed, steps, wmax=52):
                          'dot', 'transpose', 'clip', 'sort', 'deepcopy', 'equal', 'npadd', 'npmul', 'fadd', 'out', 'complex',
                          'resize-norestore', 'resize-narrow-norestore', 'resize-nint', 'resize-sign', 'set-raw', 'set-index', 'iop', 'like-kw', 'template',
                          'T', 'flatten', 'copy', 'fxp_like', 'from-bin', 'clip-wide', 'npsub', 'fsub', 'rconst', 'slice', 'setslice', 'conj',
-                         'recfg'])
+                         'recfg', 'rejected'])
         z = None
+        # sometimes a class-level template is ACTIVE during the call (it only supplies defaults to constructors without sizes:
+        # whatever the call returns must still be well formed - an element of x keeps x's format, for instance)
+        templ_on = rng.random() < 0.15 and op not in ('template',)
+        if templ_on:
+            try:
+                Fxp.template = Fxp(None, rng.random() < 0.5, rng.choice([4, 8, 12]), rng.choice([0, 2, 4]))
+            except Exception:
+                templ_on = False
         try:
-            if op == 'new':
+            if op == 'rejected':
+                # calls that are rejected with an error and leave the object as it was (x stays in the pool and is reported)
+                k = int(np.size(x.val))
+                for bad in (lambda: x.__setitem__(k + 3, 0), lambda: x.set_val({'a': 1}), lambda: x('0b' + '1' * (int(x.n_word) + 3)),
+                            lambda: x('no number'), lambda: x.set_val(0, index=k + 3)):
+                    try:
+                        bad()
+                    except Exception:
+                        pass
+                if rng.random() < 0.5:
+                    s, w, f = fmt()
+                    x.resize(n_word=max(1, int(x.n_word) + rng.choice([-1, 1, 3])))
+                z = x
+            elif op == 'new':
                 z = new()
             elif op == 'set':
                 x(value(x.signed, x.n_word, x.n_frac) if x.size == 1 else [value(x.signed, x.n_word, x.n_frac) for _ in range(x.size)] if x.ndim == 1 else
@@ -225,9 +246,12 @@ def run_program(fx, np, seed, steps, wmax=52):
                 z = Fxp(complex(value(s, w, f), value(s, w, f)), s, w, f)
         except Exception:
             z = None
+            Fxp.template = None
             # a call that RAISED may have left the object it was called on half-updated (sizes set, dtype string not yet): what such an
             # object reports afterwards is not something C02 speaks about (it quantifies over objects RETURNED by public calls)
             pool[:] = [o for o in pool if o is not x]
+        if templ_on:
+            Fxp.template = None
         if isinstance(z, Fxp) and z.val is not None and z.n_word is not None:
             try:
                 if 1 <= z.n_word <= wmax or (z.n_word == 0 and not z.signed):       # C02 quantifies over core-domain formats
